@@ -25,7 +25,7 @@ EXPLANATION = (
     "skip/stride/atom_indices/chunk dependence.")
 NOT_DECIDED = ["equality of the values read (run-time)", "the XDR offset arithmetic inside C", "efficient-striding seek path of xtc/trr beyond its structure"]
 ASSUMPTIONS = ["read_next_timestep / read_xtc / read_trr consume exactly one frame per successful call"]
-FLOORS = {"C02-R1": 30, "C02-R2": 2, "C02-R3": 3, "C02-R4": 20, "C02-R5": 15, "C02-R6": 7, "C02-R7": 8, "C02-R8": 60}
+FLOORS = {"C02-R1": 30, "C02-R2": 2, "C02-R3": 3, "C02-R4": 20, "C02-R5": 15, "C02-R6": 7, "C02-R7": 8, "C02-R8": 58}
 
 LOADERS = {  # ext -> class key
     ".xtc": "xtc", ".trr": "trr", ".dcd": "dcd", ".dtr": "dtr", ".h5": "h5", ".nc": "nc", ".mdcrd": "mdcrd", ".xyz": "xyz",
